@@ -508,4 +508,73 @@ def moreStep (number : Nat) (l : List Out) : List Out × List Out :=
   let k := if number = 0 then l.length else min number l.length
   ((l.drop (l.length - k)).reverse, l.take (l.length - k))
 
+/-! ## the `_mores` dictionary shared by all requesters
+
+`callbacks.IrcObjectProxy._mores` is one class-level `IrcDict` (keys lowered with the rfc1459 rules).
+`reply` binds two keys to the SAME list object: `_mores[user@host] = msgs` and
+`_mores[nick] = (private, msgs)`.  `Misc.more` pops from `_mores[user@host]` in place, and
+`more <nick>` first binds the caller's `user@host` to a COPY (`L[:]`) of the list found under `<nick>`.
+List objects are modelled as indices into a heap that only grows. -/
+
+/-- `ircutils.toLower` with the rfc1459 casemapping (ASCII upper case and `[]\~`) -/
+def ircLowerChar (c : Char) : Char :=
+  if c = '[' then '{' else if c = ']' then '}' else if c = '\\' then '|' else if c = '~' then '^'
+  else asciiLowerChar c
+
+def ircLower (s : Str) : Str := s.map ircLowerChar
+
+/-- dictionary lookup in an association list (the most recent binding of a key is in front) -/
+def lookupKey {β : Type} (k : Str) : List (Str × β) → Option β
+  | [] => none
+  | (k', v) :: rest => if k = k' then some v else lookupKey k rest
+
+structure Mores where
+  lists : List (List Out) := []                -- heap of list objects
+  byMask : List (Str × Nat) := []              -- `_mores[user@host] = <list object>`
+  byNick : List (Str × (Bool × Nat)) := []     -- `_mores[nick] = (private, <list object>)`
+deriving Repr
+
+/-- `self._mores[mask] = msgs; self._mores[msg.nick] = (private, msgs)` with a fresh list object -/
+def Mores.store (m : Mores) (mask nick : Str) (priv : Bool) (msgs : List Out) : Mores :=
+  { lists := m.lists ++ [msgs],
+    byMask := (ircLower mask, m.lists.length) :: m.byMask,
+    byNick := (ircLower nick, (priv, m.lists.length)) :: m.byNick }
+
+inductive MoreRes where
+  | sent (l : List Out)     -- messages queued
+  | noMore                  -- "That's all, there is no more."
+  | noPublic                -- "<nick> has no public mores."
+  | cantFind                -- "Sorry, I can't find any mores for <nick>"
+  | notAsked                -- "You haven't asked me a command; …"
+deriving DecidableEq, Repr
+
+/-- the `if nick:` block of `Misc.more`: bind the caller's hostmask to a copy of `<nick>`'s list -/
+def Mores.adopt (m : Mores) (mask nick : Str) : Except MoreRes Mores :=
+  match lookupKey (ircLower nick) m.byNick with
+  | none => .error .cantFind
+  | some (priv, id) =>
+    if priv then .error .noPublic
+    else .ok { m with lists := m.lists ++ [m.lists.getD id []],
+                      byMask := (ircLower mask, m.lists.length) :: m.byMask }
+
+/-- the rest of `Misc.more`: pop `number` messages, in place, from the caller's list -/
+def Mores.pop (m : Mores) (mask : Str) (number : Nat) : Mores × MoreRes :=
+  match lookupKey (ircLower mask) m.byMask with
+  | none => (m, .notAsked)
+  | some id =>
+    let r := moreStep number (m.lists.getD id [])
+    ({ m with lists := m.lists.set id r.2 }, if r.1.isEmpty then .noMore else .sent r.1)
+
+/-- `Misc.more` called by `…!mask` with the optional argument `<nick>` and `plugins.Misc.mores = number` -/
+def Mores.more (m : Mores) (mask : Str) (nick : Option Str) (number : Nat) : Mores × MoreRes :=
+  match nick with
+  | none => m.pop mask number
+  | some n =>
+    match m.adopt mask n with
+    | .error e => (m, e)
+    | .ok m' => m'.pop mask number
+
+/-- `private = self.private or not public` stored next to the list under the nick -/
+def storedPrivate (e : Env) : Bool := e.priv.getD false || !e.msgIsChannel
+
 end C12
